@@ -90,7 +90,7 @@ func (cm *connManager) handleNewConn(regManager *cj.RegistrationManager, clientC
 
 	fd, err := clientConn.File()
 	if err != nil {
-		logger.Errorln("failed to get file descriptor on clientConn:", err)
+		logger.Errorln("failed to get file descriptor on clientConn:", generalizeErr(err))
 		return
 	}
 
@@ -189,7 +189,7 @@ func (cm *connManager) handleNewTCPConn(regManager *cj.RegistrationManager, clie
 	deadline := time.Now().Add(timeout)
 	err = clientConn.SetDeadline(deadline)
 	if err != nil {
-		logger.Errorln("error occurred while setting deadline:", err)
+		logger.Errorln("error occurred while setting deadline:", generalizeErr(err))
 	}
 
 	if count < 1 {
@@ -349,7 +349,7 @@ readLoop:
 			// We found our transport! First order of business: disable deadline
 			err = wrapped.SetDeadline(time.Time{})
 			if err != nil {
-				logger.Errorln("error occurred while setting deadline:", err)
+				logger.Errorln("error occurred while setting deadline:", generalizeErr(err))
 			}
 
 			logger.SetPrefix(fmt.Sprintf("[%s] %s ", t.LogPrefix(), reg.IDString()))
@@ -1609,6 +1609,9 @@ var (
 
 	// errConnClosed replaces closed errors to prevent client IP logging
 	errConnClosed = errors.New("closed")
+
+	// errConnOther replaces any error that is not recognized to prevent client IP logging
+	errConnOther = errors.New("other error")
 )
 
 func generalizeErr(err error) error {
@@ -1629,12 +1632,22 @@ func generalizeErr(err error) error {
 		return errConnAborted
 	case errors.Is(err, syscall.EHOSTUNREACH):
 		return errUnreachable
+	case errors.Is(err, transports.ErrTryAgain):
+		return transports.ErrTryAgain
+	case errors.Is(err, transports.ErrNotTransport):
+		return transports.ErrNotTransport
 	default:
 		if errN, ok := err.(net.Error); ok && errN.Timeout() {
 			return errConnTimeout
 		}
 	}
 
-	// if it is not a well known error, return it
-	return err
+	// Anything else is reduced to its errno, if it has one, or to a fixed text:
+	// the error of a socket operation (*net.OpError) spells out both endpoints
+	// of the connection, which would put the client address into the logs.
+	var errno syscall.Errno
+	if errors.As(err, &errno) {
+		return errno
+	}
+	return errConnOther
 }
